@@ -122,8 +122,8 @@ func rulesC01(c *Ctx, r *Report) {
 	r.check(okAll, "W80", where, "sequence lines", c.pos(line.call.Pos()),
 		fmt.Sprintf("lines are Sequence[i : min(i+%d, len)] for i = 0, %d, … < len, each written as \"%%s\\n\"; MarshalText's length formula uses the same %d (≤ 80)", step, step, step),
 		fmt.Sprintf("wrapping is inconsistent: starts at 0: %v, step %d, window width %d (want equal, ≤ 80), loop bound %s (want %s), line format %q (want \"%%s\\n\"), MarshalText divides by %d", okInit, step, width, bound, seqLen, *line.format, mtC))
-	rulesPassAllFor(c, r, "formats/fasta", []string{"(*reader).iter$1", "Reader$1"}, 2)
-	rulesG5Bytes(c, r, []g5spec{{"formats/fasta", "(*reader).read"}}, 4, "terminator comparison groups in the four states of fasta.read")
+	rulesPassAllFor(c, r, "formats/fasta", 3)
+	rulesG5Bytes(c, r, []g5spec{{"formats/fasta", "role:fasta.read"}}, 4, "terminator comparison groups in the four states of fasta.read")
 }
 
 func nonZero(m map[string]int64) []string {
